@@ -325,11 +325,15 @@ def removeEnt (w : W) (p : Nat) (e : List Nat) : W :=
     subs := w.subs.filter fun b => !(b.2.1 = p && b.2.2.1 = e)
     binds := w.binds.filter fun b => !entDrops w.cfg p e b }
 
+/-- does a removal entry for `e` remove anything: the entity is known, and it is not the device-information entity —
+    the handler skips a removal entry for [0] (without it the peer could not be answered any more) -/
+def remGo (w : W) (p : Nat) (e : List Nat) : Bool := hasEnt w p e && decide (e ≠ [0])
+
 /-- partial discovery notification "entity `e` removed", from the peer's node management -/
 def processEntRem (w : W) (p : Nat) (e : List Nat) (ctr : Nat) (ack : Bool) : W × List (Nat × Out) :=
   if !connected w p then (w, []) else
   let outs := if ack then [(p, Out.result (some ctr) 0 nmAddr nmAddr (some 0))] else []
-  (bump (if hasEnt w p e then removeEnt w p e else w) outs, outs)
+  (bump (if remGo w p e then removeEnt w p e else w) outs, outs)
 
 /-- partial discovery notification "entity `e` added" with the features the peer announced for it at first -/
 def processEntAdd (w : W) (p : Nat) (e : List Nat) (ctr : Nat) (ack : Bool) : W × List (Nat × Out) :=
